@@ -21,6 +21,13 @@ def sig_class(F, b):
     if imp.get("trait") == DROP_TRAIT and b.get("name") == "drop":
         hn = F.handle_name(imp["self_ty"])
         return ("DROP-IMPL", -1 if hn in OWNING_HANDLES else 0)
+    if (imp.get("trait") or "").endswith("ref_cnt::RefCnt"):
+        # arc-swap's contract for the optional overrides: `inc(&Self) -> *mut Base` hands out one more owning raw pointer,
+        # `dec(*const Base)` gives one back
+        if b.get("name") == "inc":
+            return ("RAW-CLONE", +1)
+        if b.get("name") == "dec":
+            return ("RAW-IN", -1)
     if out_ptr and tin == 1 and tout == 0:
         return ("RAW-OUT", +1)
     if b.get("unsafe") and in_ptr and tout - tin == 1:
